@@ -30,6 +30,9 @@ var orderTargets = []orderTarget{
 	{"core/pipeline/pipeline.go", "GenerateIntermediate"},
 	{"core/pipeline/pipeline.go", "getReducedControllers"},
 	{"core/pipeline/pipeline.go", "getModels"},
+	{"core/pipeline/pipeline.go", "getControllers"},
+	{"core/pipeline/pipeline.go", "getImports"},
+	{"core/arbitrators/packages.facade.go", "GetAllSourceFiles"},
 	{"generator/routes/generator.go", "GenerateRoutes"},
 }
 
